@@ -3,7 +3,7 @@
 From Coq Require Import List Bool Arith NArith ZArith Lia Sorting.Sorted.
 Import ListNotations.
 From C13 Require Import Model ProofsGlob ProofsKmp ProofsWild ProofsSearch ProofsTable ProofsSealed.
-From C13 Require Import ModelBlock ProofsBlock ProofsProvider ProofsWriter ProofsActive ProofsRace.
+From C13 Require Import ModelBlock ProofsBlock ProofsProvider ProofsWriter ProofsActive ProofsRace ProofsSealedBytes.
 
 (* The executable specification [glob] (what every case is judged against) is the declarative
    glob: text terms stand for themselves, every '*' for an arbitrary string. *)
@@ -246,20 +246,10 @@ Theorem C13_active_provider_exact : forall (hash fl : bytes -> nat) (hist : list
 Proof. exact active_exact. Qed.
 Print Assumptions C13_active_provider_exact.
 
-(* End-to-end statement over the byte-level blocks.
-   Full statement (NOT proved; kept as the target):
-     forall parse (bounded), reg, b0, fields (sorted duplicate-free tokens per field, distinct
-     field names, token lengths < 2^32-1, physical blocks < 2^32 bytes), f, q, wfq q ->
-       sealed_search_bytes parse W32 reg b0 fields f q =
-       Some (spec_scan (spec_match parse q) (1 + number of tokens in the fields before f) (tokens of f)).
-   Proved part: for every selected entry range [sel] that is a contiguous cover whose packed blocks
-   serve the sorted dictionary dict (what C13_block_unpack_exact establishes for the entries
-   writeTokensBlocks emits): the real Provider over the packed blocks hands out exactly dict for
-   FirstTID..LastTID, and the narrowed Search over it equals the scan of every token.
-   Missing for the full statement: the slicing argument that the table entries of one field,
-   cut to SelectEntries' [l, r), are such a cover with MinVal/MaxVal as C13_sealed_equals_scan
-   assumes (first/last token of each chunk); that composition is exercised on every run by the
-   class rand-writer (sealed_search_bytes against the real SelectEntries + Provider + Search). *)
+(* Building block of C13_sealed_equals_scan_bytes (proved in full further below): for every
+   selected entry range [sel] that is a contiguous cover whose packed blocks serve the sorted
+   dictionary dict, the real Provider over the packed blocks hands out exactly dict for
+   FirstTID..LastTID, and the narrowed Search over it equals the scan of every token. *)
 Theorem C13_sealed_equals_scan_bytes_partial : forall parse : bytes -> option Z,
   (forall s k, parse s = Some k -> (- maxkey <= k <= maxkey)%Z) ->
   forall w disk sel first dict q, wfq q -> StronglySorted lt_bytes dict ->
@@ -410,3 +400,54 @@ Example C13_table_reload_norewind_refuted :
   tl_load_norewind lens (0, 0) = Some (3, 5, (5, 3)) /\
   tl_load_norewind lens (5, 3) = Some (5, 7, (7, 3)).
 Proof. vm_compute. repeat split. Qed.
+
+(* ================================================================ end to end over the bytes *)
+
+(* The sealed lookup over the packed blocks, for EVERY list of fields (distinct names; the searched
+   field f anywhere in it, its tokens sorted and duplicate-free), every RegularBlockSize, first
+   block index and width of the length field: token block generator (chunking, StartTID) ->
+   writeTokensBlocks (physical blocks, StartIndex/BlockIndex, MinVal/MaxVal) -> the table entries
+   of f -> SelectEntries by hint -> Provider over the selected entries reading the packed blocks
+   (unpack, GetValByTID) -> narrowed Search = the scan of every token of f with the glob / interval
+   semantics, TIDs counted in dictionary order after the fields before f.
+   Hypotheses: token lengths < 2^32-1 and physical blocks < 2^32 bytes (as in
+   C13_block_unpack_exact). Composition of C13_block_unpack_exact (located records),
+   C13_provider_get_token, C13_select_entries_complete and C13_sealed_equals_scan. *)
+Theorem C13_sealed_equals_scan_bytes : forall parse : bytes -> option Z,
+  (forall s k, parse s = Some k -> (- maxkey <= k <= maxkey)%Z) ->
+  forall w reg b0 (pre : list (bytes * N * list bytes)) f total toks post q, 1 <= w ->
+  let fields := pre ++ (f, total, toks) :: post in
+  wfq q ->
+  ~ In f (map (fun x => fst (fst x)) pre) -> ~ In f (map (fun x => fst (fst x)) post) ->
+  Forall (fun x => Forall (fun t => (blen t < maxv w)%N) (snd x)) fields ->
+  StronglySorted lt_bytes toks ->
+  (forall blocks, gen_blocks reg fields 1 = Some blocks ->
+     Forall (fun P => (blen P < 256 ^ N.of_nat w)%N) (ws_done (write_blocks w reg b0 blocks))) ->
+  sealed_search_bytes parse w reg b0 fields f q
+  = Some (spec_scan (spec_match parse q) (1 + Z.of_nat (length (concat (map (fun x => snd x) pre)))) toks).
+Proof.
+  exact (fun parse PB w reg b0 pre f total toks post q Hw =>
+           sealed_equals_scan_bytes parse PB w Hw reg b0 pre f total toks post q).
+Qed.
+Print Assumptions C13_sealed_equals_scan_bytes.
+
+(* the hypotheses hold for the two-field dictionary of C13_sealed_bytes_nonvacuous (searched field
+   g after field f, starting in the middle of the physical block) *)
+Example C13_sealed_bytes_hypotheses_witness :
+  let pre := [([f_], 3%N, [[a]; [a; b]; [b]])] in
+  let toks := [[a]; [a; a]; [b]] in
+  let fields := pre ++ ([g_], 3%N, toks) :: [] in
+  ~ In [g_] (map (fun x => fst (fst x)) pre) /\
+  Forall (fun x => Forall (fun t => (blen t < maxv W32)%N) (snd x)) fields /\
+  StronglySorted lt_bytes toks /\
+  (forall blocks, gen_blocks 16384 fields 1 = Some blocks ->
+     Forall (fun P => (blen P < 256 ^ N.of_nat W32)%N) (ws_done (write_blocks W32 16384 0 blocks))).
+Proof.
+  cbv zeta. split; [|split; [|split]].
+  - simpl. intros [H|[]]. discriminate H.
+  - repeat (first [apply Forall_nil | apply Forall_cons]); vm_compute; reflexivity.
+  - repeat (constructor; [|repeat constructor; reflexivity]). constructor.
+  - intros blocks E. vm_compute in E. inversion E; subst blocks.
+    match goal with |- Forall ?P ?l => let l' := eval vm_compute in l in change (Forall P l') end.
+    repeat (first [apply Forall_nil | apply Forall_cons]); vm_compute; reflexivity.
+Qed.
